@@ -457,6 +457,29 @@ func (r *Run) failureLeadsToErrorReturn(w *World, rule, construct string, call s
 					return r.check(true, rule, construct, r.at(w, call), "error propagated by return", "")
 				}
 			}
+			// "return f()" with several results: the extracted error is the last operand of the return(s) and has
+			// no other use
+			evs := errResults(call)
+			prop := len(evs) > 0
+			for _, ev := range evs {
+				refs := ev.Referrers()
+				if refs == nil || len(*refs) == 0 {
+					prop = false
+					continue
+				}
+				for _, ref := range *refs {
+					ret, isRet := ref.(*ssa.Return)
+					if _, isDbg := ref.(*ssa.DebugRef); isDbg {
+						continue
+					}
+					if !isRet || len(ret.Results) == 0 || ret.Results[len(ret.Results)-1] != ev {
+						prop = false
+					}
+				}
+			}
+			if prop {
+				return r.check(true, rule, construct, r.at(w, call), "error propagated by return", "")
+			}
 		}
 		return r.check(false, rule, construct, r.at(w, call), "", "error result of "+short(calleeName(call))+" is never tested")
 	}
